@@ -41,6 +41,9 @@ var featureSrc = map[string]string{
 	"local_funcvar":            "func fFV() {\n\tF := func() int { return 2 }\n\t_ = F\n}\n",
 	"method_value":             "func (a A) M1() {}\n",
 	"method_pointer":           "func (a *A) M2() {}\n",
+	// methods declared through an alias of the type / of the pointer to it are methods of the type all the same
+	"method_alias_value":       "type AV = A\n\nfunc (a AV) M3() {}\n",
+	"method_alias_pointer":     "type AP = *A\n\nfunc (a AP) M4() {}\n",
 	"generic_method_value":     "func (g G[T]) GM1() T { return g.V }\n",
 	"generic_method_pointer":   "func (g *G[T]) GM2() {}\n",
 	"grouped_types":            "type (\n\tX int\n\tY string\n)\n\nfunc (X) MX() {}\n\nfunc (y *Y) MY() {}\n",
@@ -57,7 +60,7 @@ var featureSrc = map[string]string{
 	"local_shadow_generic": "func fLocalShadowG() {\n\ttype G struct{ Q string }\n\tvar _ G\n\tif true {\n\t\ttype A int\n\t\tvar _ A\n\t}\n}\n",
 }
 
-var featureNeeds = map[string]string{"method_value": "pkg_type", "method_pointer": "pkg_type", "generic_method_value": "generic_type", "generic_method_pointer": "generic_type"}
+var featureNeeds = map[string]string{"method_value": "pkg_type", "method_pointer": "pkg_type", "method_alias_value": "pkg_type", "method_alias_pointer": "pkg_type", "generic_method_value": "generic_type", "generic_method_pointer": "generic_type"}
 
 func synthSource(pkg string, feats []string) (string, error) {
 	set := map[string]bool{}
@@ -154,7 +157,7 @@ func universeObserve(u *gengotypes.Universe, p gengotypes.Package) map[string]an
 						for i := 0; i < named.NumMethods(); i++ {
 							m := named.Method(i)
 							wantAll = append(wantAll, m.Name())
-							if _, ptr := m.Type().(*types.Signature).Recv().Type().(*types.Pointer); !ptr {
+							if _, ptr := types.Unalias(m.Type().(*types.Signature).Recv().Type()).(*types.Pointer); !ptr {
 								wantVal = append(wantVal, m.Name())
 							}
 						}
